@@ -37,6 +37,7 @@ def conv(a, enc):
     """abstract parameter value -> a hashable Python value (distinct abstract values stay distinct)"""
     if enc == "int": return a + 10
     if enc == "str": return "p%d" % a
+    if enc == "twins": return {0: 1, 1: "1", 2: None, 3: "None"}[a]      # not sortable against each other AND equal as text (1 / '1', None / 'None'): a label is its value, not its spelling
     return {0: 2.5, 1: "b", 2: (1, "t"), 3: None}[a]        # mixed: not sortable against each other
 
 
@@ -251,7 +252,7 @@ def _job(job):
     key, h, quick, seed = job
     hk = zlib.crc32(key.encode())
     rng = random.Random(seed * 1000003 + hk)
-    encs = (("int", "str"), ("int", "mixed"), ("str", "mixed"))[hk % 3] if not quick else ("int", ("str", "mixed")[hk % 2])
+    encs = (("int", "str"), ("int", "mixed"), ("str", "mixed"), ("int", "twins"))[hk % 4] if not quick else ("int", ("str", "mixed", "twins")[hk % 3])
     for i, enc in enumerate(encs):
         route = ("ctor", "log")[(hk // 2 + i) % 2]
         variant = (hk // 4 + i) % 4
